@@ -15,7 +15,14 @@ import (
 // Rand is splitmix64: every random choice of a run derives from VERIF_SEED through one state.
 type Rand struct{ s uint64 }
 
-func NewRand(seed uint64) *Rand { return &Rand{s: seed*0x9E3779B97F4A7C15 + 0x1234567} }
+func NewRand(seed uint64) *Rand {
+	// the state of splitmix64 advances by a constant per draw: derive the initial state by mixing the seed,
+	// otherwise seed and seed+1 yield the same stream shifted by one draw
+	z := seed + 0x1234567
+	z = (z ^ (z >> 30)) * 0xBF58476D1CE4E5B9
+	z = (z ^ (z >> 27)) * 0x94D049BB133111EB
+	return &Rand{s: z ^ (z >> 31)}
+}
 
 func (r *Rand) U64() uint64 {
 	r.s += 0x9E3779B97F4A7C15
